@@ -145,7 +145,7 @@ impl Run<'_> {
     fn ctor(&mut self, c: Ctor, spec: &Spec, group: &str) {
         let mut calls = 0;
         self.rep.evaluations += 1;
-        let r = catch(|| ctor_case(c, spec, &mut calls));
+        let r = watchdog::case(|| format!("{:?} {:?}", c, spec), || catch(|| ctor_case(c, spec, &mut calls)));
         self.rep.transitions += calls;
         let r = match r {
             Ok(r) => r,
@@ -173,7 +173,7 @@ impl Run<'_> {
     /// Registry-level part: prefix / common labels, then a metric, then gather.
     fn registry(&mut self, prefix: Option<&str>, labels: &[(&str, &str)], c: Ctor, spec: &Spec, group: &str) {
         self.rep.evaluations += 1;
-        let r = catch(|| {
+        let r = watchdog::case(|| format!("registry prefix={:?} labels={:?} {:?} {:?}", prefix, labels, c, spec), || catch(|| {
             let lm: Option<HashMap<String, String>> = if labels.is_empty() {
                 None
             } else {
@@ -195,7 +195,7 @@ impl Run<'_> {
                 return (Some(("no-sample-gathered".to_string(), "registered metric has no sample".to_string())), "x");
             }
             (check_gathered(&mfs).map(|d| ("invalid-name-gathered".to_string(), d)), "gathered")
-        });
+        }));
         self.rep.transitions += 4;
         let (r, how) = match r {
             Ok(x) => x,
